@@ -27,7 +27,7 @@ for p in props:
     ))
 m = dict(
     version=1,
-    setup_cmd="cd /verif/harness && GOFLAGS=-mod=mod GOPROXY=off GOSUMDB=off GOTOOLCHAIN=local go test -c -tags verif -o /verif/.build/props.test ./props",
+    setup_cmd="cd /verif/harness && mkdir -p /verif/.build && GOFLAGS=-mod=mod GOPROXY=off GOSUMDB=off GOTOOLCHAIN=local go test -c -tags verif -o /verif/.build/props.test ./props && GOFLAGS=-mod=mod GOPROXY=off GOSUMDB=off GOTOOLCHAIN=local go test -c -race -tags verif -o /verif/.build/props.race.test ./props",
     hooks=dict(guard="verif", enable="no source hooks are needed: the harness is an external Go package importing sipsp through 'replace => /repo'; the tag 'verif' is passed to every build for uniformity and guards nothing in /repo",
                baseline_off_cmd="cd /repo && GOFLAGS=-mod=mod GOPROXY=off GOSUMDB=off go test -vet=off -count=1 -json ./...",
                source_commits=[], add_only=True),
